@@ -1,6 +1,6 @@
 (* C04 — co-occurrence results do not depend on threads, buffer sizes or data volume.
    Only statements, each closed by `exact <lemma>`, followed by Print Assumptions. *)
-From Coq Require Import ZArith List Lia Sorting.Sorted Permutation.
+From Coq Require Import ZArith List Bool Lia Sorting.Sorted Permutation.
 From VZ Require Import Model.K01_CooAcc Proofs.K01_CooAcc_list Proofs.K01_CooAcc_arrays Proofs.K01_CooAcc_proofs.
 Import ListNotations.
 Open Scope Z_scope.
@@ -66,22 +66,39 @@ Print Assumptions C04_threads_irrelevant.
 (* The flagship statement.  For EVERY sort threshold limit >= 1 (COO_QUICKSORT_LIMIT), every initial capacity >= 20
    (smaller buffers can never meet coo_append's growth test: D23), every min-stack length and EVERY event list with
    non-negative keys (the merge uses key -1 as its sentinel) that the level counter can count
-   (2 * #events + 2 < 2^(|min| - 1); the drivers allocate |min| = 2 * ceil(log2 capacity) >= 10 and |min| grows with the
-   buffer), the run appends..., coo_sum_duplicates, merge_all_sum_duplicates
+   (2 * #events + 2 < 2^(|min| - 1): every flush and every merge_all adds at most 1 to the binary level counter whose
+   bit length is `depth`; the drivers allocate |min| = 2 * ceil(log2 capacity) >= 10 and |min| grows with the buffer),
+   the run  appends ...; coo_sum_duplicates; merge_all_sum_duplicates
      - performs no out-of-bounds read or write (result Ok: every array access of the model is checked),
      - ends in a state whose live entries sum, key by key, to exactly the events: nothing lost, duplicated or
-       credited to another key by the sort windows, the carries, merge_all or buffer growth. *)
-Theorem C04_acc_total_partial : forall limit cap mlen (evs : list entry),
+       credited to another key by the sort windows, the carries, merge_all or buffer growth,
+     - with strictly increasing live keys (every key occurs once). *)
+Theorem C04_acc_total : forall limit cap mlen (evs : list entry),
   1 <= limit -> 20 <= cap -> Forall (fun e => 0 <= e_key e) evs -> 2 * zlen evs + 2 < 2 ^ (mlen - 1) ->
-  exists s, run limit cap mlen evs = Ok s /\ (forall k, denote s k = sumby evs k)
-            /\ Forall (fun e => 0 <= e_key e) (live s).
-Proof. exact run_total. Qed.
-Print Assumptions C04_acc_total_partial.
-(* _partial: the design's statement also has `StronglySorted Z.lt (map e_key (live s))`.  The per-operation facts
-   behind it are proved (C04_window_sorted: the run written by coo_sum_duplicates is strictly sorted;
-   rlc_sorted + interleave_wsorted: the carry of two sorted runs is strictly sorted) but the induction that threads
-   "every level's run is strictly sorted" through the min stack (in particular through merge_all's compaction) is not
-   part of this theorem.  The harness checks strict sortedness of the final live keys on every run. *)
+  exists s, run limit cap mlen evs = Ok s /\
+            (forall k, denote s k = sumby evs k) /\
+            StronglySorted Z.lt (map e_key (live s)).
+Proof.
+  intros limit cap mlen evs H1 H2 H3 H4.
+  destruct (run_total (fun _ => True) limit cap mlen evs H1 H2) as (s & E & D & S & _); [|exact H4|].
+  - eapply Forall_impl; [|exact H3]. simpl. intros e He. split; [exact He|exact I].
+  - exists s. split; [exact E|]. split; [exact D|exact S].
+Qed.
+Print Assumptions C04_acc_total.
+
+(* the same at the level of matrix cells, with the drivers' key = col + array_mul * row, 0 <= col < array_mul:
+   cell (r, c) of the accumulated triples = sum of the values of the events of cell (r, c) *)
+Theorem C04_acc_cells : forall limit cap mlen mul (evs : list entry),
+  1 <= limit -> 20 <= cap -> 2 * zlen evs + 2 < 2 ^ (mlen - 1) ->
+  Forall (fun e => 0 <= e_key e /\ 0 <= e_col e < mul /\ e_key e = e_col e + mul * e_row e) evs ->
+  exists s, run limit cap mlen evs = Ok s /\
+            (forall r c, 0 <= c < mul -> cell (live s) r c = cell evs r c) /\
+            StronglySorted Z.lt (map e_key (live s)).
+Proof.
+  intros limit cap mlen mul evs H1 H2 H3 H4. apply (run_cells limit cap mlen mul evs H1 H2 H3).
+  eapply Forall_impl; [|exact H4]. intros [[[r c] v] k]. simpl. tauto.
+Qed.
+Print Assumptions C04_acc_cells.
 
 (* the result does not depend on the threshold, the capacities or the growth history *)
 Theorem C04_acc_indep : forall l1 l2 cap1 cap2 m1 m2 (evs : list entry) s1 s2,
@@ -91,30 +108,41 @@ Theorem C04_acc_indep : forall l1 l2 cap1 cap2 m1 m2 (evs : list entry) s1 s2,
   forall k, denote s1 k = denote s2 k.
 Proof.
   intros l1 l2 cap1 cap2 m1 m2 evs s1 s2 H1 H2 H3 H4 H5 H6 H7 R1 R2 k.
-  destruct (run_total l1 cap1 m1 evs H1 H3 H5 H6) as (t1 & E1 & D1 & _).
-  destruct (run_total l2 cap2 m2 evs H2 H4 H5 H7) as (t2 & E2 & D2 & _).
+  destruct (C04_acc_total l1 cap1 m1 evs H1 H3 H5 H6) as (t1 & E1 & D1 & _).
+  destruct (C04_acc_total l2 cap2 m2 evs H2 H4 H5 H7) as (t2 & E2 & D2 & _).
   rewrite R1 in E1. rewrite R2 in E2. inversion E1; inversion E2; subst. rewrite D1, D2. reflexivity.
 Qed.
 Print Assumptions C04_acc_indep.
 
-(* per-operation preservation (what the induction is made of) *)
-Theorem C04_sum_duplicates_preserves : forall c,
-  stack_ok c -> ind c < cap c -> cnt (mn c) (depth c) + 1 < 2 ^ (zlen (mn c) - 1) ->
-  exists c', coo_sum_duplicates c = Ok c' /\ stack_ok c' /\ (forall k, denote c' k = denote c k) /\
+(* the hypotheses are needed: below capacity 20 the model (like the code) overruns its buffer, and a min stack that
+   is too short for the number of flushes is overrun as well *)
+Theorem C04_small_capacity_refuted : exists evs, run 65536 19 10 evs = OOB S_append_write.
+Proof. exists (map (fun k => (0, k, 1, k)) [0;1;2;3;4;5;6;7;8;9;10;11;12;13;14;15;16;17;18;19]). vm_compute. reflexivity. Qed.
+Print Assumptions C04_small_capacity_refuted.
+
+Theorem C04_short_min_stack_refuted : exists evs, run 1 20 3 evs = OOB S_ms_min_i1.
+Proof. exists (map (fun k => (0, 0, 1, 0)) [0;1;2;3;4;5;6;7]). vm_compute. reflexivity. Qed.
+Print Assumptions C04_short_min_stack_refuted.
+
+(* per-operation preservation (what the induction is made of); Q = any property of (row, col, key) *)
+Theorem C04_sum_duplicates_preserves : forall Q c,
+  stack_ok Q c -> ind c < cap c -> cnt (mn c) (depth c) + 1 < 2 ^ (zlen (mn c) - 1) ->
+  exists c', coo_sum_duplicates c = Ok c' /\ stack_ok Q c' /\ (forall k, denote c' k = denote c k) /\
              cap c' = cap c /\ ind c' <= ind c.
 Proof.
-  intros c H1 H2 H3. destruct (csd_ok c H1 H2 H3) as (c' & E & S & C & _ & I & _ & D & _).
+  intros Q c H1 H2 H3. destruct (csd_ok Q c H1 H2 H3) as (c' & E & S & C & _ & I & _ & D & _).
   exists c'. split; [exact E|]. split; [exact S|]. split; [exact D|]. split; [exact C|lia].
 Qed.
 Print Assumptions C04_sum_duplicates_preserves.
 
-Theorem C04_merge_all_preserves : forall c,
-  stack_ok c -> ind c <= cap c -> cnt (mn c) (depth c) + 1 < 2 ^ (zlen (mn c) - 1) ->
-  exists c', merge_all_sum_duplicates c = Ok c' /\ stack_ok c' /\ (forall k, denote c' k = denote c k) /\
-             cap c' = cap c /\ ind c' <= ind c.
+Theorem C04_merge_all_preserves : forall Q c,
+  stack_ok Q c -> ind c <= cap c -> cnt (mn c) (depth c) + 1 < 2 ^ (zlen (mn c) - 1) ->
+  Z.abs (nthZ (mn c) 0) = ind c ->
+  exists c', merge_all_sum_duplicates c = Ok c' /\ stack_ok Q c' /\ (forall k, denote c' k = denote c k) /\
+             cap c' = cap c /\ ind c' <= ind c /\ StronglySorted Z.lt (map e_key (live c')).
 Proof.
-  intros c H1 H2 H3. destruct (ma_ok c H1 H2 H3) as (c' & E & S & C & _ & I & _ & D & _).
-  exists c'. split; [exact E|]. split; [exact S|]. split; [exact D|]. split; [exact C|lia].
+  intros Q c H1 H2 H3 H4. destruct (ma_ok Q c H1 H2 H3 H4) as (c' & E & (S & C & _ & I & _ & D & _) & Hs).
+  exists c'. split; [exact E|]. split; [exact S|]. split; [exact D|]. split; [exact C|]. split; [lia|exact Hs].
 Qed.
 Print Assumptions C04_merge_all_preserves.
 
@@ -125,13 +153,14 @@ Theorem C04_carry_sorted : forall f a b, (length a + length b <= f)%nat ->
 Proof. intros f a b Hf Ha Hb. apply rlc_sorted, interleave_wsorted; assumption. Qed.
 Print Assumptions C04_carry_sorted.
 
-(* non-vacuity of C04_acc_total_partial: threshold 2, capacity 20, 12 events over 3 keys, |min| = 10 *)
+(* non-vacuity of C04_acc_total / C04_acc_cells: threshold 2, capacity 20, 12 events over 3 cells, |min| = 10 *)
 Example C04_acc_example :
   let evs := [(0,0,1,0); (0,1,1,1); (1,0,2,4); (0,0,1,0); (0,1,3,1); (1,0,1,4);
               (0,0,1,0); (0,1,1,1); (1,0,2,4); (0,0,1,0); (0,1,3,1); (1,0,1,4)] in
   2 * zlen evs + 2 < 2 ^ (10 - 1) /\
+  forallb (fun e => (0 <=? e_key e) && (0 <=? e_col e) && (e_col e <? 4) && (e_key e =? e_col e + 4 * e_row e)) evs = true /\
   option_map live (match run 2 20 10 evs with Ok s => Some s | OOB _ => None end) = Some [(0,0,4,0); (0,1,8,1); (1,0,6,4)].
-Proof. vm_compute. split; reflexivity. Qed.
+Proof. vm_compute. repeat split; reflexivity. Qed.
 
 (* non-vacuity: 5 documents of sizes 3,1,4,1,5 over 3 threads give the chunks (0,2) (2,4) (4,5) *)
 Example C04_chunks_example : chunk_boundaries [3; 1; 4; 1; 5] 3 = [(0, 2); (2, 4); (4, 5)].
